@@ -81,6 +81,7 @@ struct Problem
     std::uint32_t positron_id{kNone};
     std::map<std::string, std::uint32_t> action_ids;  //!< label -> id
     std::vector<std::string> action_labels;  //!< id -> label
+    std::vector<bool> is_model_action;  //!< id -> action is a physics model (an interaction)
     unsigned slots{0};
     bool status_checker{false};
     std::vector<std::uint32_t> calo_volumes;
